@@ -4,6 +4,7 @@ import checklib
 from checklib import Prop
 from formats import treeinfo as TF
 from formats import discinfo as DF
+import ini_diff
 
 
 def strip_parent(v):
@@ -28,21 +29,14 @@ class C04(Prop):
             "patterns, descriptions, ALL / integer lists): real dumps bytes = IniText.render of the model document, real loads "
             "snapshot = model = documented normalisation of the input, second dump identical, every section/option the format "
             "prescribes present (independent INI reader); non-trivial = distinct inputs the library agreed to write")
-    assumptions = ["configparser's reader inverts IniText.render on representable documents (validated on every case: model parse of "
-                   "the real bytes, and the model's own line-based reader `IniText.parse`, both compared with the document)",
+    assumptions = ["the reader/writer models of Model/IniParse.lean are CPython's configparser as SortedConfigParser configures it "
+                   "(parse(render d) = d is PROVED for the models, Proofs/IniRoundTrip.lean + Proofs/IniTextTie.lean; the models are "
+                   "compared with the real parser on random texts and documents in every run: extra_checks)",
                    "float(repr(x)) == x for finite x and int(float(str(n))) == n for |n| <= 2^53 (CPython; explicit hypotheses of the "
                    "theorems, evaluated by CPython itself for the driver)",
                    "Python dicts are modelled as association lists; theorems are stated for the sorted representative, "
                    "independence of the bytes from the insertion order is C08"]
-    partial = {
-        "C04_tree_written": "writer half only: every fact of every variant (any depth) and of the other sections is in the document under a "
-                            "unique section; the reader half for the forest/images/checksums (deserialize d = ok (norm t)) is not proved in Lean, "
-                            "it is validated per case (model load = norm = real load)",
-        "C04_release_readback": "one section of the reader ([release]); [tree], variants, images, checksums, stage2, media readers are tied by "
-                                "correspondence only",
-        "C04_disc_readback_partial": "stated on the list of lines; joining/splitting the four lines at line feeds and the decimal round trip "
-                                     "of the disc numbers are hypotheses validated per case",
-    }
+    partial = {}
 
     # ------------------------------------------------------------------ generators
     def cases(self, rng, tier, budget):
@@ -87,6 +81,13 @@ class C04(Prop):
     # ------------------------------------------------------------------ real side
     def real(self, case):
         a = case["args"]
+        if case["op"] == "ini_parse":
+            return ini_diff.real_parse(a["text"])
+        if case["op"] == "ini_render":
+            try:
+                return {"ok": ini_diff.real_render(a["doc"])}
+            except Exception as e:  # noqa
+                return {"err": type(e).__name__}
         if case["op"] == "disc":
             try:
                 di = DF.build(a["spec"])
@@ -121,6 +122,8 @@ class C04(Prop):
     # ------------------------------------------------------------------ model side
     def model_requests(self, case):
         a = case["args"]
+        if case["op"] in ("ini_parse", "ini_render"):
+            return []
         if case["op"] == "disc":
             return [{"op": "di_cycle", "args": {"spec": DF.model_spec(a["spec"]), "floats": DF.floats_for(a["spec"])}}]
         return [{"op": "ti_cycle", "args": {"spec": a["spec"], "main_variant": a.get("main_variant"), "floats": TF.floats_for(a["spec"])}}]
@@ -161,6 +164,20 @@ class C04(Prop):
 
     # ------------------------------------------------------------------ the property on the real library
     def oracle(self, case, real_out):
+        if case["op"] in ("ini_parse", "ini_render"):
+            drv = checklib.Driver()
+            if case["op"] == "ini_parse":
+                m = drv.call([{"op": "ini_parse", "args": case["args"]}])[0]
+                r = real_out
+                if "err" in r:
+                    r = {"err": ini_diff.ERRMAP.get(r["err"], r["err"])}
+                else:
+                    r = {"ok": ini_diff.sort_doc(r["ok"])}
+                    m = {"ok": ini_diff.sort_doc(m["ok"])} if "ok" in m else m
+            else:
+                m = {"ok": drv.call([{"op": "ini_render_sorted", "args": case["args"]}])[0]}
+                r = real_out
+            return None if r == m else {"observed": {"real": r}, "required": {"model": m}, "kind": "text-model-vs-cpython"}
         if "build" in real_out or "ok" not in real_out.get("dump", {}):
             return None                      # the library does not agree to write this object
         a = case["args"]
@@ -192,10 +209,14 @@ class C04(Prop):
         return None
 
     def nontrivial(self, case, real_out):
+        if case["op"] in ("ini_parse", "ini_render"):
+            return True
         return "ok" in real_out.get("dump", {})
 
     def stats(self, case, real_out, dist):
         op = case["op"]
+        if op in ("ini_parse", "ini_render"):
+            return
         d = dist.setdefault(op, {"cases": 0, "written": 0, "refused": 0})
         d["cases"] += 1
         if "ok" in real_out.get("dump", {}):
@@ -218,6 +239,43 @@ class C04(Prop):
         else:
             k = "ALL" if case["args"]["spec"]["disc_numbers"] == ["ALL"] else "numbers"
             d[k] = d.get(k, 0) + 1
+
+    # ------------------------------------------------------------------ the text layer stays tied to CPython
+    def gen_doc(self, rng):
+        names = ["s", "t", "general", "a]b", " pad ", "x y", "images-x86_64", "variant-A-b", "S", "é"]
+        keys = ["a", "key", "Key", "a b", "; WARNING.0", "#c", "x.y", "UP", "é", "k%", "[x"]
+        vals = ["", "v", "a = b", "x: y", "two\nlines", " lead", "trail ", "%(a)s", "100%", "%%", "é ü", "# v", "; v", "[v]", "\tt"]
+        doc = []
+        for s_ in rng.sample(names, rng.randint(0, 4)):
+            doc.append([s_, [[k, rng.choice(vals)] for k in rng.sample(keys, rng.randint(0, 4))]])
+        return doc
+
+    def extra_checks(self, ctx):
+        drv, rng, tier = ctx["driver"], ctx["rng"], ctx["tier"]
+        if drv is None:
+            return []
+        fails = []
+        n_text = 300 if tier == "quick" else 6000
+        n, ok, bad = ini_diff.run(drv, rng, n_text)
+        ctx["dist"]["ini_reader_vs_cpython"] = {"texts": n, "accepted": ok, "disagreements": len(bad)}
+        for b in bad[:2]:
+            fails.append({"case": {"op": "ini_parse", "args": {"text": b["text"]}}, "observed": {"real": b["real"]},
+                          "required": {"model": b["model"]}, "kind": "reader-model-vs-cpython"})
+        docs = [self.gen_doc(rng) for _ in range(150 if tier == "quick" else 3000)]
+        outs = drv.call([{"op": "ini_render_sorted", "args": {"doc": d}} for d in docs])
+        nbad = 0
+        for d, o in zip(docs, outs):
+            try:
+                real = ini_diff.real_render(d)
+            except Exception as e:  # noqa  (e.g. interpolation refusing a value)
+                real = {"err": type(e).__name__}
+            if real != o:
+                nbad += 1
+                if nbad <= 2:
+                    fails.append({"case": {"op": "ini_render", "args": {"doc": d}}, "observed": {"real": real}, "required": {"model": o},
+                                  "kind": "writer-model-vs-cpython"})
+        ctx["dist"]["ini_writer_vs_cpython"] = {"documents": len(docs), "disagreements": nbad}
+        return fails
 
     # ------------------------------------------------------------------ shrinking
     def shrink_candidates(self, case):
@@ -265,13 +323,18 @@ class C04(Prop):
 PROP = C04()
 
 MANIFEST = dict(
-    technique="Lean 4 proof over an executable model of the treeinfo writer/reader on INI documents and of the discinfo line format "
-              "(induction over the variant forest, get/set algebra of the document); byte-exact model of SortedConfigParser.write; "
-              "differential correspondence on bytes and on every public fact; direct round-trip oracle on the real library",
-    text="C04_tree_readback: for every tree the model writer accepts, the reader returns the documented normalisation of the tree "
-         "(forests of any depth and width, any number of platforms/images/checksums); C04_tree_fixpoint: on a normal tree the cycle is "
-         "the identity, hence the second dump equals the first; C04_disc_readback for discinfo lines.",
-    note="Hypotheses kept visible: top-level variants filed under their UID (F8), integer timestamp exactly representable as a double "
-         "(F17), UIDs and platforms free of ',' and unique, no top-level addon, no platform named '<x>-<arch>', checksum type/value free "
-         "of ':'. The text reader is an assumption validated per case.",
+    technique="Lean 4 proof over an executable model of the treeinfo writer/reader on INI documents and of the discinfo line format: "
+              "lookup-form specification of the written document (induction over the variant forest), the assembled current-format reader "
+              "proved against any view of that specification, text layer through the proved parse/render model of configparser; byte-exact "
+              "differential correspondence and a direct round-trip oracle on the real library; reader/writer text models compared with "
+              "CPython on random texts in every run",
+    text="C04_tree_readback: serialize t = ok d -> deserialize d = ok (norm t) for forests of any depth and width, every child type, any "
+         "number of platforms/images/checksums; C04_tree_fixpoint / C04_tree_bytes: on a normal-form tree the cycle is the identity and the "
+         "second dumps is byte-identical; C04_tree_text: loads(dumps t) = norm t through the text (comment-named ; WARNING options dropped by "
+         "the reader: proved); C04_disc_readback: loads(dumps x) = x on the text, decimal and line joins proved.",
+    note="Hypotheses (all decidable, each with a witness or justification): integer timestamp exact as a double (F17), UIDs/platforms free "
+         "of ',' and UIDs unique, no top-level addon (F24), no platform '<x>-<arch>' (F25), checksum type/value free of ':', dict keys "
+         "distinct, the normal form passes the reader's validators (derived for normal-form trees), representability of the written document "
+         "(Boolean criterion proved sufficient). F8 (top-level filed under id) is inside norm: readback holds, fixpoint excludes it. "
+         "Independence of the bytes from dict insertion order is C08.",
     ref="7/C04")
